@@ -45,6 +45,7 @@ type Fault struct {
 	Action string `json:"action"`           // error | short | halt-before | halt-after | short-halt
 	Errno  string `json:"errno,omitempty"`  // EIO (default) ENOSPC EINTR ENOLCK EACCES
 	Short  int    `json:"short,omitempty"`  // bytes delivered by a short write/read before the error or halt
+	Frac   int    `json:"frac,omitempty"`   // alternative to Short: permille of the requested transfer that is delivered
 	Repeat int    `json:"repeat,omitempty"` // fire on this many further consecutive matches (EINTR storms)
 	seen   int
 	fired  int
@@ -305,6 +306,7 @@ func errnoOf(s string) error {
 type decision struct {
 	fail      error // fail the operation with this error (after delivering short bytes, if short >= 0)
 	short     int   // -1: not short
+	frac      int   // >0: short = frac permille of the transfer
 	haltAfter bool
 	haltMid   bool // short then halt
 }
@@ -381,6 +383,7 @@ func Enter(op, path string) (decision, error) {
 	case "short":
 		d.fail = e
 		d.short = hit.Short
+		d.frac = hit.Frac
 	case "halt-before":
 		halt(proc)
 	case "halt-after":
@@ -390,6 +393,7 @@ func Enter(op, path string) (decision, error) {
 			halt(proc) // nothing to cut short: the process dies before the operation
 		}
 		d.short = hit.Short
+		d.frac = hit.Frac
 		d.haltMid = true
 	}
 	return d, nil
@@ -796,6 +800,9 @@ func (f *File) write(op string, b []byte, off int64, at bool) (int, error) {
 		return 0, d.fail
 	}
 	want := len(b)
+	if d.short >= 0 && d.frac > 0 {
+		d.short = len(b) * d.frac / 1000
+	}
 	if d.short >= 0 && d.short < len(b) {
 		b = b[:d.short]
 	}
